@@ -146,3 +146,45 @@ func H_C18_llmnr_client_matching() {
 	c.Close()
 	vCover("end")
 }
+
+// Close while the receive loop is waiting: Serve / readLoop return (one schedule; natively a 3 s observation time-out).
+func H_C18_llmnr_close() {
+	conn, peer, ok := c18loopback()
+	if !ok {
+		return
+	}
+	defer peer.Close()
+	done := make(chan struct{})
+	if vParam("who") == 0 {
+		s := &Server{Handlers: []Handler{HandlerFunc(func(*Server, net.Addr, ResponseWriter, *Message) bool { return false })},
+			Closed: make(chan struct{}), Conn: conn, Network: "udp4"}
+		go func() {
+			s.Serve()
+			close(done)
+		}()
+		if vParam("served") == 1 {
+			peer.WriteToUDP(c18query(vU16("id"), "alpha"), conn.LocalAddr().(*net.UDPAddr))
+		}
+		time.Sleep(100 * time.Millisecond)
+		s.Close()
+		s.Close() // closing twice is harmless
+	} else {
+		c := &Client{Conn: conn, Timeout: time.Second, Closed: make(chan struct{})}
+		go func() {
+			c.readLoop()
+			close(done)
+		}()
+		if vParam("served") == 1 {
+			peer.WriteToUDP(c18response(vU16("id"), 1), conn.LocalAddr().(*net.UDPAddr))
+		}
+		time.Sleep(100 * time.Millisecond)
+		c.Close()
+		c.Close()
+	}
+	select {
+	case <-done:
+	case <-time.After(3 * time.Second):
+		vCheck(false, "llmnr/close/receive-loop-returns")
+	}
+	vCover("end")
+}
